@@ -542,22 +542,50 @@ func c15callAll[R any](c *c15ctx, ms []c15meth[R], mk func(RedisMessage) R, recv
 		}
 		// first case of this (accessor, class, panic text): capture the panic
 		// site and shrink the reply to a minimal one that still panics there
-		run := func(w []byte) (any, string) {
+		run := func(w []byte) (any, string, string) {
 			m := c.decode(w)
 			rv := mk(m)
-			return vrun.Catch(func() { _ = ms[i].call(&rv) })
+			return c15catch(func() { _ = ms[i].call(&rv) })
 		}
-		_, site := run(wire)
+		_, site, line := run(wire)
 		minWire := c15minimize(c.decode(wire), func(w []byte) bool {
-			p2, site2 := run(w)
-			return p2 != nil && site2 == site
+			p2, site2, line2 := run(w)
+			return p2 != nil && site2 == site && line2 == line
 		})
 		mm := c.decode(minWire)
-		p2, _ := run(minWire)
+		p2, _, _ := run(minWire)
 		sig := fmt.Sprintf("%s panics in %s: %s", ms[i].name, site, c15class(&mm))
 		c.sigs[key] = sig
-		c.violate(sig, fmt.Sprintf("%s.%s on reply %q (%s) panicked: %v; expected a value or an error (first seen on %q, shrunk)", reflect.TypeOf(recv).Elem().Name(), ms[i].name, minWire, mm.String(), p2, wire), minWire, ms[i].name)
+		c.violate(sig, fmt.Sprintf("%s.%s on reply %q (%s) panicked at %s: %v; expected a value or an error (first seen on %q, shrunk)", reflect.TypeOf(recv).Elem().Name(), ms[i].name, minWire, mm.String(), line, p2, wire), minWire, ms[i].name)
 	}
+}
+
+// c15catch is vrun.Catch plus the source line of the first /repo frame below
+// the panic (used only to keep the shrinker on the same failing statement).
+func c15catch(f func()) (p any, site, line string) {
+	defer func() {
+		if p = recover(); p != nil {
+			st := string(debug.Stack())
+			site = vrun.PanicSite(st)
+			seen := false
+			for _, l := range strings.Split(st, "\n") {
+				if strings.HasPrefix(l, "panic(") {
+					seen = true
+					continue
+				}
+				if seen && strings.HasPrefix(l, "\t") && strings.Contains(l, "/repo/") && !strings.Contains(l, "_test.go") {
+					l = strings.TrimSpace(l)
+					if k := strings.IndexByte(l, ' '); k > 0 {
+						l = l[:k]
+					}
+					line = l[strings.LastIndexByte(l, '/')+1:]
+					return
+				}
+			}
+		}
+	}()
+	f()
+	return
 }
 
 // ---- shrinking of counterexamples
